@@ -22,6 +22,8 @@ Inductive c13_step :=
 | SStatic (stages : result (list stage_resp))                 (* Stages *)
           (stage_k : list (result stage_resp))                (* Stage{0..3} *)
           (members_k : list (result (list (N * N))))          (* Members{0..3} walked to the end in pages of 100 *)
+| SInfo (all : list (result (list member_info)))               (* AllStageMemberInfo per probe *)
+        (one : list (list (result member_info)))               (* StageMemberInfo per probe, stage id 0..3 *)
 | SPage (id : N) (start_after limit : option N) (out : result (list (N * N)))   (* one Members page *)
 | STime (nows : list N) (obs : tobs).    (* the same answers at each of these instants *)
 
@@ -40,6 +42,9 @@ Definition resp_eqb (a b : stage_resp) : bool :=
   match a, b with (i, s, x), (i', s', x') => (i =? i') && stage_eqb s s' && (x =? x') end.
 
 Definition pair_eqb (a b : N * N) : bool := (fst a =? fst b) && (snd a =? snd b).
+
+Definition info_eqb (a b : member_info) : bool :=
+  match a, b with (i, m, l), (i', m', l') => (i =? i') && Bool.eqb m m' && (l =? l') end.
 
 Definition cfg_eqb (a b : cfgobs) : bool :=
   (c_num a =? c_num b) && (c_pal a =? c_pal b) && (c_limit a =? c_limit b) &&
@@ -73,6 +78,11 @@ Fixpoint run_steps (w : wl) (probes : list (N * option N)) (steps : list c13_ste
       result_eqb (list_eqb resp_eqb) (q_stages w) sts &&
       list_eqb (result_eqb resp_eqb) (map (q_stage w) ids4) sk &&
       list_eqb (result_eqb (list_eqb pair_eqb)) (map (q_members w) ids4) mk &&
+      run_steps w probes r
+  | SInfo all one :: r =>
+      list_eqb (result_eqb (list_eqb info_eqb)) (map (fun p => q_all_stage_member_info w (fst p)) probes) all &&
+      list_eqb (list_eqb (result_eqb info_eqb))
+               (map (fun p => map (fun id => q_stage_member_info w id (fst p)) ids4) probes) one &&
       run_steps w probes r
   | SPage id sa lim out :: r =>
       result_eqb (list_eqb pair_eqb) (q_members_page w id sa lim) out && run_steps w probes r
